@@ -64,6 +64,9 @@ Lemma poll_inside_waiting_period :
   0 < PollInitialNs /\ PollInitialNs <= PollMaxNs /\ 2 <= PollFactor /\ 10 * PollMaxNs <= DefaultTTLns.
 Proof. vm_compute. repeat split; intro K; discriminate. Qed.
 
+Lemma poll_init_le_max : PollInitialNs <= PollMaxNs.
+Proof. vm_compute. intro K. discriminate. Qed.
+
 (* ---- the deployments meet the hypotheses of the theorems *)
 Lemma direct_meets : forall ttl ident,
   keys_disjoint (cfg_direct ttl ident) /\ (forall k, c_route (cfg_direct ttl ident) k = true)
